@@ -1261,6 +1261,10 @@ func (s *Silences) loadSnapshot(r io.Reader) error {
 		if _, err := mi.add(e.Silence); err != nil {
 			s.metrics.matcherCompileLoadSnapshotErrorsTotal.Inc()
 			s.logger.Error("Failed to compile silence matchers during snapshot load", "silence_id", e.Silence.Id, "err", err)
+			// st is the map being ranged over: the silence has to be removed
+			// explicitly, otherwise it stays in the state without being
+			// indexed and is neither queryable nor ever garbage collected.
+			delete(st, e.Silence.Id)
 		} else {
 			st[e.Silence.Id] = e
 
